@@ -571,15 +571,31 @@ def check_radix_dtor(ctx, unit, rule="O6.radix-dtor"):
         if kinds != {"entry_node", "link_node"}:
             problems.append("node kinds released: %s" % sorted(kinds))
         # descending: tn = cn->links[idx] must be followed (same path, before leaving the loop) by links[idx] = null
-        desc = [n for n in f.events() if n.kind == "BinaryOperator" and n.op == "=" and "links" in canon(n.children[1])
+        inits_l = RA.local_inits(f)
+        ref_dids = {d_["d"] for n_ in f.all_nodes() if n_.kind == "DeclStmt" for d_ in n_.get("decls", [])
+                    if (d_.get("t") or "").rstrip().endswith("&") or (d_.get("n") or "").startswith("__")}
+
+        def of_links(x, depth=0):
+            """x mentions the links array -- directly, or as the element variable of a range-based for over it"""
+            if "links" in canon(x):
+                return True
+            if depth > 5:
+                return False
+            for y in x.walk():
+                if y.kind == "DeclRefExpr" and y.get("local") and y.d["d"] in inits_l and y.d["d"] in ref_dids:
+                    if of_links(inits_l[y.d["d"]], depth + 1):
+                        return True
+            return False
+        desc = [n for n in f.events() if n.kind == "BinaryOperator" and n.op == "=" and of_links(n.children[1])
                 and path(n.children[0]) and len(path(n.children[0])) == 1]
         # (the link may equally be taken into a freshly declared local)
         desc += [n for n in f.events() if n.kind == "DeclStmt" and any(
-            "init" in d and (d.get("t") or "").rstrip().endswith("*") and "links" in canon(f.node(d["init"])) for d in n.get("decls", []))]
+            "init" in d and (d.get("t") or "").rstrip().endswith("*") and not (d.get("n") or "").startswith("__")
+            and "atomic" not in (d.get("t") or "") and of_links(f.node(d["init"])) for d in n.get("decls", []))]
         for dsc in desc:
             cleared = False
             for n in f.events():
-                if n.is_call() and n.callee and n.callee["n"] in ("operator=", "store") and "links" in canon(n) and \
+                if n.is_call() and n.callee and n.callee["n"] in ("operator=", "store") and of_links(n) and \
                         f.postdominates(n.id, dsc.id):
                     a = n.args[-1].strip() if n.args else None
                     if a is not None and (a.get("nullc") or a.kind == "CXXNullPtrLiteralExpr" or any(x.kind == "CXXNullPtrLiteralExpr" for x in a.walk())):
